@@ -115,4 +115,120 @@ inductive Restore
   | diagInfZero  -- form 2
 deriving Repr, DecidableEq
 
+/-! ### compiled kernels: write sets and the provenance of what Python hands them
+
+`translate/gen_C06.py` reads, from the `.pyx` / `.c` text, for every kernel which array (or
+Python-object) parameters it stores into, and, from every Python call site, where each argument
+object comes from.  Round 3. -/
+
+/-- where the object passed for a parameter comes from: `fresh` = positively a new object made in
+the calling function (allocation, `.copy()`, `to_cy`, arithmetic …); `result` / `field` / `arg` =
+(a view of) a cached result, an attribute of `self`, a caller argument; `unknown` = none of these
+could be established -/
+inductive Prov | fresh | result | field | arg | unknown
+deriving Repr, DecidableEq
+
+structure KParam where
+  name : String
+  array : Bool       -- ndarray / memoryview / untyped Python object (lists of twins)
+  written : Bool     -- the kernel (or a callee / C routine it hands the buffer to) stores into it
+  returned : Bool    -- the kernel returns this very object
+deriving Repr, DecidableEq
+
+structure KArg where
+  param : String
+  prov : Prov
+  src : String
+deriving Repr, DecidableEq
+
+structure KCall where
+  site : String
+  kernel : String
+  args : List KArg
+deriving Repr, DecidableEq
+
+def findKernel (ks : List (String × List KParam)) (k : String) : Option (List KParam) :=
+  match ks with
+  | [] => none
+  | (n, ps) :: t => if n = k then some ps else findKernel t k
+
+def findParam (ps : List KParam) (p : String) : Option KParam :=
+  match ps with
+  | [] => none
+  | q :: t => if q.name = p then some q else findParam t p
+
+/-- does kernel `k` store into its parameter `p`?  Unknown kernels / parameters count as written
+(so a table that lost an entry cannot make the check pass). -/
+def paramWritten (ks : List (String × List KParam)) (k p : String) : Bool :=
+  match findKernel ks k with
+  | none => true
+  | some ps => match findParam ps p with
+    | none => true
+    | some q => q.written
+
+def argClean (ks : List (String × List KParam)) (k : String) (a : KArg) : Bool :=
+  !(paramWritten ks k a.param) || decide (a.prov = .fresh)
+
+/-- the decidable check on the generated tables: every written parameter of every kernel call
+receives a positively fresh object -/
+def kernelCallsClean (ks : List (String × List KParam)) (calls : List KCall) : Bool :=
+  calls.all fun c => c.args.all (argClean ks c.kernel)
+
+def kernelOffenders (ks : List (String × List KParam)) (calls : List KCall) : List String :=
+  (calls.filter fun c => !(c.args.all (argClean ks c.kernel))).map (·.site)
+
+/-- heap semantics of one kernel call: parameter bound to heap location `loc`; if the kernel
+writes the parameter the object there gets an arbitrary new content `newval` -/
+structure Bind (α : Type) where
+  loc : Nat
+  written : Bool
+  newval : α
+
+def applyCall {α : Type} (h : List α) (bs : List (Bind α)) : List α :=
+  bs.foldl (fun h b => if b.written then h.set b.loc b.newval else h) h
+
+/-- the bindings of one execution of a call site: `env` places every argument object on the
+heap, `out` is whatever the kernel computes for it; whether it is stored is decided by the
+kernel table -/
+def callBinds {α : Type} (ks : List (String × List KParam)) (c : KCall) (env : KArg → Nat)
+    (out : KArg → α) : List (Bind α) :=
+  c.args.map fun a => ⟨env a, paramWritten ks c.kernel a.param, out a⟩
+
+/-- a history of kernel executions -/
+def runSteps {α : Type} (ks : List (String × List KParam)) (h : List α)
+    (steps : List (KCall × (KArg → Nat) × (KArg → α))) : List α :=
+  steps.foldl (fun h s => applyCall h (callBinds ks s.1 s.2.1 s.2.2)) h
+
+/-! ### constructors: fields that are the caller's object -/
+
+structure CtorAlias where
+  site : String            -- module:Class.method
+  field : String
+  arg : String
+  family : List String     -- the class, its ancestors and descendants
+deriving Repr, DecidableEq
+
+/-- no field that is bound to a caller argument itself is ever edited in place by a method of
+the class family (mutators included) -/
+def ctorAliasesUnedited (al : List CtorAlias) (edits : List (String × String)) : Bool :=
+  al.all fun a => edits.all fun e => !(a.family.contains e.1 && e.2 == a.field)
+
+def ctorOffenders (al : List CtorAlias) (edits : List (String × String)) : List String :=
+  (al.filter fun a => !(edits.all fun e => !(a.family.contains e.1 && e.2 == a.field))).map
+    fun a => a.site ++ ":" ++ a.field
+
+/-- heap location of field `f` of an object built from `n` caller arguments (locations
+`0 … n-1`): the argument's own location if the field is an alias, a location of its own
+otherwise (`own f` numbers the non-alias fields) -/
+def fieldLoc (n : Nat) (aliases : List (String × Nat)) (own : String → Nat) (f : String) : Nat :=
+  match aliases.lookup f with
+  | some k => k
+  | none => n + own f
+
+/-- a history of in-place edits of fields (by the constructor, mutators, queries): each stores
+an arbitrary new content into the object the field refers to -/
+def editFields {α : Type} (n : Nat) (aliases : List (String × Nat)) (own : String → Nat)
+    (h : List α) (edits : List (String × α)) : List α :=
+  edits.foldl (fun h e => h.set (fieldLoc n aliases own e.1) e.2) h
+
 end Pyunicorn.Pure
